@@ -238,9 +238,9 @@ theorem eku_unrestricted (c : Cert) (us : List Nat) (h : (c.eku.isEmpty && !c.un
       simp [h1, h0]
 
 /-- Non-vacuity (a test): root ← intermediate ← leaf, all fields in order, is verified with one chain. -/
-def exRoot : Cert := ⟨1, 10, 10, 10, 10, none, none, -100, 100, true, true, -1, 0, [], [], [], "", [], false, false⟩
-def exInt : Cert := ⟨2, 20, 10, 20, 10, none, none, -100, 100, true, true, -1, 0, [], [], [], "", [], false, false⟩
-def exLeaf : Cert := ⟨3, 90, 20, 90, 20, none, none, -100, 100, false, false, -1, 1, [], ["www.example.com"], [], "", [], false, false⟩
+def exRoot : Cert := ⟨1, 10, 10, 10, 10, none, none, -100, 100, true, true, -1, 0, [], [], [], "", [], false, false, 3⟩
+def exInt : Cert := ⟨2, 20, 10, 20, 10, none, none, -100, 100, true, true, -1, 0, [], [], [], "", [], false, false, 3⟩
+def exLeaf : Cert := ⟨3, 90, 20, 90, 20, none, none, -100, 100, false, false, -1, 1, [], ["www.example.com"], [], "", [], false, false, 3⟩
 example : (match verify [exRoot] [exInt] exLeaf ⟨0, "", false, "", []⟩ with
     | .ok cs => cs | _ => []) = [[3, 2, 1]] := by decide
 
